@@ -39,6 +39,8 @@ def obligations(tier, seed):
     add("builtin", "c01_maxadd_n3", desc="MaxAdd", bounds="n=3")
     add("builtin", "c01_sumadd_n3", desc="SumAdd", bounds="n=3")
     add("builtin", "c01_combinator_n3", desc="Combinator<SumAdd, Combinator<MinAdd, MaxAdd>> = the three folds side by side", bounds="n=3")
+    add("c01", "c01_combinator_free_n3", covers=2, desc="Combinator of two free-monoid items: both components equal their own sequences (from_slice/from_iter, two modifies, set, every ask)", bounds="n=3")
+    add("c01", "c01_combinator_free_n4", covers=2, desc="Combinator of two free-monoid items", bounds="n=4")
     add("c01", "c01_twin_false", expect="fail", desc="deliberately false twin")
     if tier == "thorough":
         for h in ("c01_minadd_n5", "c01_maxadd_n5", "c01_sumadd_n4", "c01_sumadd_n5", "c01_combinator_n5"):
